@@ -702,6 +702,10 @@ fn oracle_on_return(w: &mut UWorld, opi: usize) -> Option<Violation> {
             }
         }
     }
+    // ---- Closed is the answer of a closed pool only ----------------------------------------
+    if !w.close_invoked && matches!(res, URes::Err(UErr::Closed) | URes::Refused(_, UErr::Closed)) {
+        return v("closed_only_when_closed", format!("{:?} returned {:?} on a pool that was never closed", op.op, res));
+    }
     // ---- add() has no timeout: it waits for a slot and fails only on a closed pool ---------
     if let (UOp::Add { .. }, URes::Refused(id, e)) = (&op.op, &res) {
         if *e != UErr::Closed || !w.close_invoked {
